@@ -3,7 +3,7 @@ from __future__ import annotations
 
 import numpy as np
 
-from .. import gen, reach
+from .. import gen, reach, repo
 from ..oracle import embed, refq
 
 ID = "C03"
@@ -215,6 +215,17 @@ def _finite_all(X, res, cov):
     return bool(ok)
 
 
+class _Quiet:
+    """The same solver object with its prints captured."""
+
+    def __init__(self, inner):
+        self.inner = inner
+
+    def compute(self, A):
+        with repo.quiet():
+            return self.inner.compute(A)
+
+
 def _traj(spec, ctx, R):
     S = R.solver
     m, n, r, K = spec["m"], spec["n"], spec["r"], spec["K"]
@@ -243,9 +254,15 @@ def _traj(spec, ctx, R):
         Xm, ts = model_iterates(U, V, s, gamma, K, third=third, norm2=nrmA * nrmA if r else None)
 
         def solver(k, tol=0.0):
+            # call form on a rotating subset: verbose=True (prints only; judged by the same clauses)
+            vb = (spec["idx"] + k) % 6 == 0
+            if vb:
+                ctx.hit("callform:verbose_true")
             if third:
-                return S.HigherOrderNewtonSchulzPseudoinverse(max_iter=k, tol=tol)
-            return S.NewtonSchulzPseudoinverse(gamma=gamma, max_iter=k, tol=tol, compute_residuals=track)
+                obj = S.HigherOrderNewtonSchulzPseudoinverse(max_iter=k, tol=tol, verbose=vb)
+            else:
+                obj = S.NewtonSchulzPseudoinverse(gamma=gamma, max_iter=k, tol=tol, compute_residuals=track, verbose=vb)
+            return _Quiet(obj) if vb else obj
 
         def env(k):
             """Relative size of amplified null-space rounding noise after k steps (rank-deficient input only)."""
